@@ -150,8 +150,17 @@ other("C05", "glue contracts on the nine <step>_check_conf callbacks (the step's
       "key, margins recorded once, no other field written); documented defaults decided as finite data obligations over the class "
       "bodies (@tables, 21 clauses: the class constant has the documented value -- window_size 5, subpix 1, cbca 30.0/5, "
       "invalid_disparity -9999, filter_size 3, sigma 2.0/6.0, eta 0.7/0.01, cross_checking_threshold 1.0, num_scales 2, "
-      "scale_factor 2, marge 1 -- and check_conf stores exactly that constant when the key is absent); parameter domains "
-      "(json_checker schemas), idempotence, key order, user dictionary untouched:")
+      "scale_factor 2, marge 1 -- and check_conf stores exactly that constant when the key is absent); numeric parameter DOMAINS: for 18 "
+      "parameters the predicate of the real json_checker schema entry And(<type>, <lambda>), re-read from the class and executed "
+      "with Python semantics, is proved equivalent to the documented domain for every integer / every float incl. NaN and the "
+      "infinities (odd positive windows and filter sizes, census 3 or 5, subpix 1 or positive even, cbca / sigma > 0, eta in (0, 1), "
+      "num_scales and scale_factor >= 2, marge >= 0); band parameter: check_band_pipeline proved for every list of image band "
+      "names and every form of the parameter (none / one name / dictionary / list) to refuse exactly when the image is multiband "
+      "and no band is given, or a given band is not one of the image's; key order: check_pipeline_section takes the order of the "
+      "returned pipeline from the user's configuration (trace contract).  That check_conf applies the schema (json_checker "
+      "assumed: And(T, f) accepts x iff isinstance(x, T) and bool(f(x))), method names, idempotence, user dictionary untouched:",
+      trusted=["json_checker semantics assumed: And(T, f) accepts x iff isinstance(x, T) and bool(f(x))",
+               "strings are uninterpreted tokens with equality only; '' is the only falsy string"])
 reg("C07", "proof",
     "CrossCheckingAccurate.disparity_checking proved for every image size, interval and threshold over symbolic datasets (row loop "
     "invariant; the row-wise numpy code -- np.where selections, gathers through index vectors, np.tile families, masked updates "
